@@ -83,11 +83,12 @@ def fault_for(i, k):
     return FAULT_CLASSES[(i * 7 + (k or 0)) % len(FAULT_CLASSES)]
 
 
-async def _situation(loop, sit, backend, k, repeat_name=None, pipelined=False, fault_class=0, parked=False, slow=None):
+async def _situation(loop, sit, backend, k, repeat_name=None, pipelined=False, fault_class=0, parked=False, slow=None, close_returns=None):
     """`slow`: (backend "vasync" only) the slow-th job handed to the executor after the preparation takes longer than
     `path_timeout` - a disk that hangs instead of failing"""
     name, prep, cmd, shape, needs_data = sit
     spy = spyio.Spy()
+    spy.close_returns = close_returns  # a legal backend whose close() returns something (truthy)
     kw = {"block_size": BLOCK}
     if backend == "vasync":
         kw["path_timeout"] = 0.25
@@ -193,8 +194,9 @@ def _job(args):
     fc = args[5] if len(args) > 5 else 0
     parked = len(args) > 6 and args[6]
     slow = args[7] if len(args) > 7 else None
+    close_returns = args[8] if len(args) > 8 else None
     try:
-        return simnet.run(_situation, SITUATIONS[idx], backend, k, rep, pipelined, fc, parked, slow)
+        return simnet.run(_situation, SITUATIONS[idx], backend, k, rep, pipelined, fc, parked, slow, close_returns)
     except BaseException as e:  # noqa
         return "HARNESS-ERROR %s: %s" % (type(e).__name__, e)
 
@@ -256,6 +258,10 @@ def _run(ctx, compare=True):
             if not SITUATIONS[i][4]:
                 for k in range(len(r["calls"])):
                     jobs.append((i, be, k, None, True))
+            # a backend whose close() returns a truthy value: a fault inside the transfer is still a fault
+            if SITUATIONS[i][4] and be == "memory":
+                for k in range(len(r["calls"])):
+                    jobs.append((i, be, k, None, False, 0, False, None, True))
             # the follow-up transfer uses a data connection that was parked while the command failed
             for k in range(len(r["calls"])):
                 jobs.append((i, be, k, None, False, 0, True))
@@ -313,6 +319,13 @@ def _run(ctx, compare=True):
             continue
         parked = len(job) > 6 and job[6]
         slow = job[7] if len(job) > 7 else None
+        if len(job) > 8 and job[8] is not None:
+            res.count("close_returns_value")
+            f = oracle(sit, be, k, rep, r)
+            if f:
+                f["input"]["backend_close_returns"] = job[8]
+                res.oracle_failures.append(f)
+            continue
         if slow is not None:
             res.count("slow_disk")
             f = oracle(sit, be, None, "slow executor job %d (%s)" % (slow, r["executor_jobs"][slow] if slow < len(r["executor_jobs"]) else "?"), r)
@@ -369,7 +382,7 @@ def _one(inp):
     names = [s[0] for s in SITUATIONS]
     i = names.index(inp["situation"])
     fc = [n for n, _ in FAULT_CLASSES].index(inp.get("fault_class", "OSError"))
-    r = _job((i, inp["backend"], inp.get("fault_at_call"), inp.get("all_calls_of_kind_fail"), bool(inp.get("pipelined_with")), fc, bool(inp.get("parked_data_connection")), inp.get("slow_executor_job")))
+    r = _job((i, inp["backend"], inp.get("fault_at_call"), inp.get("all_calls_of_kind_fail"), bool(inp.get("pipelined_with")), fc, bool(inp.get("parked_data_connection")), inp.get("slow_executor_job"), inp.get("backend_close_returns")))
     return SITUATIONS[i], r
 
 
